@@ -290,6 +290,35 @@ func Case(w *vt.W, rng *rand.Rand, id, maxLen int) {
 				plants = append(plants, Plant{ta, ta + ln, qa, qa + len(cp), false, 0, 5, true})
 			}
 		}
+		if rng.Intn(3) == 0 && !shortSeed {
+			// a copy at the identity threshold: about four minimum lengths long, with as many evenly spaced
+			// substitutions as the threshold allows, or one more or one fewer. Not demanded (marginal), but if it is
+			// reported its error must be within the bound
+			ln := 3*minLen + rng.Intn(2*minLen)
+			if ln < len(T)-2 && ln < len(Q)-2 {
+				d := int(float64(ln)*(1-minID)) - 1 + rng.Intn(3)
+				if d < 1 {
+					d = 1
+				}
+				ta := rng.Intn(len(T) - ln)
+				cp := append([]byte{}, T[ta:ta+ln]...)
+				for k := 0; k < d; k++ {
+					pos := (2*k + 1) * ln / (2 * d)
+					cp[pos] = acgt[(indexOf(cp[pos])+1+rng.Intn(3))%4]
+				}
+				qa := rng.Intn(len(Q) - ln)
+				clash := false
+				for _, pl := range plants {
+					if qa < pl.QB+50 && pl.QA < qa+ln+50 {
+						clash = true
+					}
+				}
+				if !clash {
+					copy(Q[qa:qa+ln], cp)
+					plants = append(plants, Plant{ta, ta + ln, qa, qa + ln, false, d, 0, true})
+				}
+			}
+		}
 	}
 	if only := os.Getenv("VERIF_ONLY_CASE"); only != "" && only != fmt.Sprint(id) {
 		return // replaying one case by hand: the others are generated (same random stream) but not run
